@@ -165,6 +165,8 @@ def run_harness(exe, args, timeout=1800, stdin=None):
 
 
 def tlc_plain(spec, cfg, workers=8, timeout=3600, extra=(), cwd=SPEC, env=None):
+    if "Postcondition" in "":
+        pass
     """run TLC without graph export; returns info dict"""
     metadir = os.path.join(WORK, "tlc", "p%d_%d" % (os.getpid(), int(time.time() * 1000) % 1000000))
     cmd = ["timeout", str(timeout), "java", "-XX:+UseSerialGC", "-Xmx6g", "-cp", tlcgraph.TLA_JAR + ":" + tlcgraph.CM_JAR, "tlc2.TLC",
@@ -186,4 +188,6 @@ def tlc_plain(spec, cfg, workers=8, timeout=3600, extra=(), cwd=SPEC, env=None):
             info["violated"] = "Temporal"
         if line.startswith("Model checking completed. No error has been found."):
             info["ok"] = True
+        if "Postcondition" in line and "is false" in line:
+            info["postcondition_failed"] = True
     return info
